@@ -32,9 +32,10 @@ impl PropCheck for C06 {
     type Case = Case;
 
     fn strategy(&self) -> BoxedStrategy<Case> {
-        (gen::wxml::group(&self.cfg), gen::data::data_env(2), proptest::collection::vec(gen::history::step(), 1..=self.max_steps), any::<u64>())
+        let general = (gen::wxml::group(&self.cfg), gen::data::data_env(2), proptest::collection::vec(gen::history::step(), 1..=self.max_steps), any::<u64>())
             .prop_map(|(group, d0, steps, style)| Case { group, d0, steps, style })
-            .boxed()
+            .boxed();
+        prop_oneof![5 => general, 1 => scenario(self.max_steps)].boxed()
     }
 
     fn eval(&self, w: Option<&mut Worker>, cases: &[Case]) -> Result<Vec<Outcome>, String> {
@@ -55,6 +56,61 @@ impl PropCheck for C06 {
     fn case_from_json(&self, v: &Value) -> Result<Case, String> {
         serde_json::from_value(v["case"].clone()).map_err(|e| e.to_string())
     }
+}
+
+/// Focused scenarios over a SMALL data object (so that the 1-3 random edits of one step often touch two of the few
+/// fields at once): keyed / unkeyed loops whose bodies also read a field outside the item, nested loops, and array
+/// literals with a spread in front of positional items, consumed by position (template data, loops).
+fn scenario(max_steps: usize) -> BoxedStrategy<Case> {
+    use crate::model::expr::{ArrItem, BinOp, Expr, ObjItem};
+    use crate::model::wxml::{Carrier, ForNode, Node, Piece, Tis, Tmpl, Val};
+    let id = |s: &str| Expr::Ident(s.to_string());
+    let txt = |ps: Vec<Piece>| Node::Text(ps);
+    let bind = |e: Expr| Piece::Bind(e);
+    let lit = |s: &str| Piece::Lit(s.to_string());
+    let spread_arr = |lead: bool| {
+        let mut items = vec![];
+        if lead {
+            items.push(ArrItem::Item(Expr::Ident("a".into())));
+        }
+        items.push(ArrItem::Spread(Expr::Paren(Box::new(Expr::Binary(BinOp::Or, Box::new(Expr::Ident("c".into())), Box::new(Expr::Arr(vec![])))))));
+        items.push(ArrItem::Item(Expr::Ident("b".into())));
+        Expr::Arr(items)
+    };
+    let member = |o: Expr, m: &str| Expr::Member(Box::new(o), m.to_string());
+    let index = |o: Expr, i: &str| Expr::Index(Box::new(o), Box::new(Expr::Num(i.to_string())));
+    (0usize..6, any::<bool>(), any::<bool>(), gen::data::keyed_list(), proptest::collection::vec(gen::data::scalar(), 0..4), gen::data::scalar(), gen::data::scalar(), proptest::collection::vec(gen::history::step(), 1..=max_steps), any::<u64>())
+        .prop_map(move |(shape, keyed, lead, list, c, a, b, steps, style)| {
+            let for_ = |list: Expr, key: Option<&str>, kids: Vec<Node>| Node::For(Box::new(ForNode { list: Val::Bind(list), item: None, index: None, key: key.map(|k| k.to_string()), kids, carrier: Carrier::Block }));
+            let mut named = vec![];
+            let body = match shape {
+                // keyed loop, body reads outside the item
+                0 => vec![for_(id("list"), if keyed { Some("id") } else { None }, vec![txt(vec![bind(member(id("item"), "v")), lit("|"), bind(id("a")), lit("|"), bind(id("index"))])])],
+                // nested: inner loop reads the outer item and a field
+                1 => vec![for_(id("list"), if keyed { Some("id") } else { None }, vec![for_(Expr::Paren(Box::new(Expr::Binary(BinOp::Or, Box::new(id("c")), Box::new(Expr::Arr(vec![]))))), None, vec![txt(vec![bind(id("item")), lit("/"), bind(id("a"))])]), txt(vec![bind(member(id("item"), "id"))])])],
+                // template data: array literal with a spread, read by position inside the called template
+                2 => {
+                    // one node per position: a text node is refreshed as a whole when any of its bindings is marked
+                    let cell = |i: &str| Node::El(crate::model::wxml::El { tag: "v".into(), attrs: vec![], slot: None, slot_refs: vec![], kids: vec![txt(vec![bind(index(id("x"), i))])] });
+                    named.push(("t1".to_string(), vec![cell("0"), cell("1"), cell("2"), cell("3"), cell("4"), txt(vec![lit("#"), bind(member(id("x"), "length"))])]));
+                    vec![Node::Tis(Tis { is: Val::Static("t1".into()), data: Some(vec![ObjItem::KV("x".into(), spread_arr(lead))]), data_expr: None })]
+                }
+                // loop over such a literal
+                3 => vec![for_(spread_arr(lead), None, vec![txt(vec![bind(id("item")), lit("@"), bind(id("index"))])])],
+                // member of such a literal
+                4 => vec![txt(vec![bind(index(spread_arr(lead), "1")), lit(";"), bind(member(spread_arr(lead), "length"))])],
+                // loop inside a called template whose data carries the list and an outside field
+                _ => {
+                    named.push(("t2".to_string(), vec![for_(id("list"), if keyed { Some("id") } else { None }, vec![txt(vec![bind(member(id("item"), "v")), lit("~"), bind(id("a"))])])]));
+                    vec![Node::Tis(Tis { is: Val::Static("t2".into()), data: Some(vec![ObjItem::Short("list".into()), ObjItem::Short("a".into())]), data_expr: None })]
+                }
+            };
+            let group = Group { files: vec![Tmpl { path: "p".into(), named, body: crate::model::wxml::normalise_nodes(body), ..Default::default() }], scripts: vec![] };
+            let mut items: Vec<(String, JsVal)> = vec![("list".into(), list), ("c".into(), JsVal::Arr(c)), ("a".into(), a), ("b".into(), b)];
+            gen::data::finish_env(&mut items, vec![], JsVal::Null);
+            Case { group, d0: JsVal::Obj(items), steps, style }
+        })
+        .boxed()
 }
 
 pub fn expand(c: &Case) -> (Vec<String>, Vec<Value>, Vec<Vec<String>>) {
